@@ -22,6 +22,15 @@ import (
 
 const maxCaseBytes = 96 * 1024
 
+func bitLen(n int) int {
+	k := 0
+	for n > 0 {
+		k++
+		n >>= 1
+	}
+	return k
+}
+
 func (x *imgCtx) rawInode(n *node) []byte {
 	if n.ref == nil {
 		return nil
@@ -216,7 +225,11 @@ func (x *imgCtx) dirCase(d string) {
 		return
 	}
 	size := uint64(binary.LittleEndian.Uint32(raw[0x4:0x8]))
-	if size > maxCaseBytes && !c.Thorough() {
+	limit := uint64(maxCaseBytes)
+	if flags&0x1000 != 0 {
+		limit = 3 * maxCaseBytes // hash-indexed directories with an interior level must be in the quick tier too
+	}
+	if size > limit && !c.Thorough() {
 		c.Stat("dir-case-too-large")
 		// still exercise the reader, without a model case
 		return
@@ -234,6 +247,35 @@ func (x *imgCtx) dirCase(d string) {
 		return
 	}
 	gen := binary.LittleEndian.Uint32(raw[0x64:0x68])
+	if flags&0x1000 != 0 && len(data) > 0x1f {
+		// dx_root.info.indirect_levels: 0 = the root points at the leaves, 1 = one interior level, …
+		c.Stat(fmt.Sprintf("htree-indirect-levels=%d", data[0x1e]))
+		c.Stat(fmt.Sprintf("htree-blocks<=%d", 1<<uint(bitLen(len(data)/int(x.geo.BlockSize)))))
+		// the hypothesis of Props/C20 htree_equals_spec_linear on the reference images: every block behind the root
+		// is a well-formed leaf (LeafOK) or an interior dx node (one record without an inode spanning the block)
+		bs := int(x.geo.BlockSize)
+		for k := 1; (k+1)*bs <= len(data); k++ {
+			blk := data[k*bs : (k+1)*bs]
+			body, tailOK := blk, true
+			if x.geo.MetadataCsum {
+				body = blk[:bs-12]
+				t := blk[bs-12:]
+				tailOK = binary.LittleEndian.Uint32(t[0:]) == 0 && binary.LittleEndian.Uint16(t[4:]) == 12 && t[6] == 0
+			}
+			rl := int(binary.LittleEndian.Uint16(blk[4:]))
+			switch {
+			case binary.LittleEndian.Uint32(blk[0:]) == 0 && rl == bs && blk[6] == 0 && data[0x1e] > 0 &&
+				binary.LittleEndian.Uint16(blk[0xa:]) >= 1 && binary.LittleEndian.Uint16(blk[0x8:]) >= binary.LittleEndian.Uint16(blk[0xa:]):
+				c.Stat("htree-interior-node")
+			case tailOK && tilesStrict(body):
+				c.Stat("htree-leaf-wellformed")
+			default:
+				c.Stat("htree-leaf-NOT-wellformed")
+			}
+		}
+	}
+	x.dirBlockCases(d, data)
+	x.dirCsumCases(d, data, flags&0x1000 != 0, n.ref.ino, gen)
 	x.dirParseCase(id, data, flags&0x1000 != 0, n.ref.ino, gen)
 }
 
